@@ -20,7 +20,7 @@ RULE = ("case = (circuit, output policy, form); distinct = distinct tuple; non-t
         "fan-out or more than one supergate is returned")
 ASSUMPTIONS = ["structural clauses are judged on circuits with fan-in <= 2 (the fan-in-limited circuit is then the circuit itself)",
                "disjointness is reflexive: ({i} u tfi(i)) and ({j} u tfi(j)) are disjoint for distinct supergate inputs i, j",
-               "lint-clean circuits in which every node lies in the cone of an output or is a primary input"]
+               "gates outside every output cone (unloaded logic) are allowed and need not be covered"]
 
 EXAMPLE = {"name": "seth_agrawal", "nodes": [
     ["i1", "input", [], False], ["i2", "input", [], False], ["i3", "input", [], False], ["i4", "input", [], False],
@@ -186,9 +186,8 @@ def descs_struct(tier):
             yield d
             n_out = sum(1 for x in d["nodes"] if x[3])
             if n_out > 1:
-                d2 = space.to_desc(I, gates, outputs=[I + len(gates) - 1])
-                if live_only(d2):
-                    yield d2
+                # single-output variant; the other sinks become unloaded logic next to the cone (legal, lint-clean)
+                yield space.to_desc(I, gates, outputs=[I + len(gates) - 1])
     yield EXAMPLE
     # constants inside output cones
     for gates in space.circuits(2, 2, types=("nand", "nor", "xor", "not", "and"), max_arity=2, consts=("0", "1"), min_gates=1):
